@@ -293,22 +293,39 @@ namespace smt
         case 1:
         {
             auto it = l.vars.cbegin();
-            c_lb += lb(it->first) * it->second + l.known_term;
-            c_ub += ub(it->first) * it->second + l.known_term;
+            if (is_positive(it->second))
+            {
+                c_lb += lb(it->first) * it->second + l.known_term;
+                c_ub += ub(it->first) * it->second + l.known_term;
+            }
+            else
+            { // a negative coefficient swaps the bounds..
+                c_lb += ub(it->first) * it->second + l.known_term;
+                c_ub += lb(it->first) * it->second + l.known_term;
+            }
             break;
         }
         case 2:
         {
-            const auto expr = l / l.vars.cbegin()->second;
+            const rational c = l.vars.cbegin()->second; // the expression is c * (v0 - v1) + known_term..
+            const auto expr = l / c;
             auto it = expr.vars.cbegin();
             const auto [v0, c0] = *it++;
             assert(c0 == rational::ONE);
             const auto [v1, c1] = *it;
             if (c1 != -rational::ONE)
                 throw std::invalid_argument("not a valid real difference logic expression..");
-            const auto dist = distance(v0, v1);
-            c_lb += dist.first + expr.known_term;
-            c_ub += dist.second + expr.known_term;
+            const auto dist = distance(v1, v0); // the bounds of v0 - v1..
+            if (is_positive(c))
+            {
+                c_lb += dist.first * c + l.known_term;
+                c_ub += dist.second * c + l.known_term;
+            }
+            else
+            {
+                c_lb += dist.second * c + l.known_term;
+                c_ub += dist.first * c + l.known_term;
+            }
             break;
         }
         default:
